@@ -516,6 +516,10 @@ package flags
 //@   loop 2 invariant p.Options&IgnoreUnknown != 0 ==> ncalls(Parser.UnknownOptionHandler) == old(ncalls(Parser.UnknownOptionHandler))
 //@   loop 2 invariant[C07] ncalls(Parser.UnknownOptionHandler) > old(ncalls(Parser.UnknownOptionHandler)) && calltime(Parser.UnknownOptionHandler, ncalls(Parser.UnknownOptionHandler) - 1) == clock() - 1 && s.err == nil ==> same(s.args, callres(Parser.UnknownOptionHandler, ncalls(Parser.UnknownOptionHandler) - 1, 0))
 //@   at[C03] call parseState.addArgs #2: !(p.Options&PassDoubleDash != 0 && arg == "--")
+// (PassAfterNonOption: the pass-through tail starts at the first non-option word that is NOT a
+// subcommand name or alias of the command active at that point; such a name still switches commands)
+//@   at[C08,C03] call parseState.addArgs #2: p.Options&PassAfterNonOption != 0 && !argumentIsOption(arg) && s.lookup.commands[arg] == nil
+//@   at[C08,C03] call Parser.parseNonOption #1: !argumentIsOption(arg) && (p.Options&PassAfterNonOption == 0 || s.lookup.commands[arg] != nil)
 //@   at[C03] call parseState.addArgs #4: !(p.Options&PassDoubleDash != 0 && arg == "--")
 //@   at[C03] call Parser.parseNonOption #1: !(p.Options&PassDoubleDash != 0 && arg == "--")
 //@   loop 2 decreases len(s.args)
@@ -668,6 +672,20 @@ package flags
 //@ pure func subOf(sub *Command, c *Command) bool = sub != nil && is(sub.parent, *Command) && as(sub.parent, *Command) == c
 //@ axiom manual wf_sub: forall c *Command, i int :: c != nil && 0 <= i && i < len(c.commands) ==> subOf(c.commands[i], c)
 
+// Finding a subcommand by name or alias among the DIRECT subcommands of c.
+//@ func (c *Command) match(name string) (r bool)
+//@   props C08 C04
+//@   requires c != nil
+//@   loop 1 invariant forall(a, 0, idx_1, c.Aliases[a] != name)
+//@   ensures[C08] use(answers_def, c, name) && r == answersTo(c, name)
+//@   assigns nothing
+//@ func (c *Command) Find(name string) (r *Command)
+//@   props C08 C04
+//@   requires c != nil
+//@   loop 1 invariant forall(i, 0, idx_1, !answersTo(c.commands[i], name))
+//@   ensures[C08] r != nil ==> exists(i, 0, len(c.commands), r == c.commands[i]) && answersTo(r, name)
+//@   ensures[C08] r == nil ==> forall(i, 0, len(c.commands), !answersTo(c.commands[i], name))
+//@   assigns nothing
 //@ func (c *Command) fillLookup(ret *lookup, onlyOptions bool)
 //@   props C07 C08 C04 C01
 //@   requires c != nil && ret != nil && !isnil(ret.shortNames) && !isnil(ret.longNames) && !isnil(ret.commands)
@@ -1290,8 +1308,13 @@ package flags
 //@   let k := retval.Type().Kind()
 //@   let um := fst(convertUnmarshal(val, retval))
 //@   let scalar := !um && tp != durationT()
-//@   at[C01,C11] call convert #2: key == strings.SplitN(val, ":", 2)[0]
-//@   at[C01,C11] call convert #3: value == ite(len(strings.SplitN(val, ":", 2)) == 2, strings.SplitN(val, ":", 2)[1], "")
+// A map entry: the text before the first ':' converts to the key type and the
+// text after it (the empty text if there is no ':') to the element type - BOTH
+// conversions happen and an error of either is returned before anything is stored.
+//@   at[C01,C11] call convert #2: arg(0) == strings.SplitN(val, ":", 2)[0] && tick(keyconv)
+//@   at[C01,C11] call convert #3: arg(0) == ite(len(strings.SplitN(val, ":", 2)) == 2, strings.SplitN(val, ":", 2)[1], "") && tick(elemconv)
+//@   at[C01,C11] call reflect.Value.SetMapIndex #1: ticks(keyconv) == 1 && ticks(elemconv) == 1
+//@   ensures[C01,C11] scalar && k == reflect.Map && err == nil ==> ncalls(reflect.Value.SetMapIndex) >= old(ncalls(reflect.Value.SetMapIndex)) + 1 && callarg(reflect.Value.SetMapIndex, ncalls(reflect.Value.SetMapIndex) - 1, 0) == retval
 //@   ensures[C11] um ==> err == snd(convertUnmarshal(val, retval)) && storesUnchanged()
 //@   ensures[C11] !um && tp == durationT() ==> (err == snd(time.ParseDuration(val))) && (err == nil ==> ncalls(reflect.Value.SetInt) == old(ncalls(reflect.Value.SetInt)) + 1 && callarg(reflect.Value.SetInt, old(ncalls(reflect.Value.SetInt)), 0) == retval && callarg(reflect.Value.SetInt, old(ncalls(reflect.Value.SetInt)), 1) == int64(fst(time.ParseDuration(val)))) && (err != nil ==> storesUnchanged())
 //@   ensures[C11] scalar && k == reflect.String ==> err == nil && ncalls(reflect.Value.SetString) == old(ncalls(reflect.Value.SetString)) + 1 && callarg(reflect.Value.SetString, old(ncalls(reflect.Value.SetString)), 0) == retval && callarg(reflect.Value.SetString, old(ncalls(reflect.Value.SetString)), 1) == val
